@@ -104,7 +104,17 @@ def comparison_shape(ix, rep, cls):
             cached[E.self_loc(t)] = tuple(alg.AlgEval(env, leaf).ev(v) for v in vals)
         else:
             raise ValueError('assignment target')
-    for st in f.node.body:
+    # named conditions (`too_short = gap < P - T`) are the conditions; a guard clause `if not bad: return` followed by the count is `if bad: count`
+    import copy as _copy
+    from sa import norm as _norm
+    fbody = _norm.inline_bool_temps(_copy.deepcopy(f.node)).body
+    if len(fbody) >= 2 and isinstance(fbody[-2], ast.If) and not fbody[-2].orelse and len(fbody[-2].body) == 1 and isinstance(fbody[-2].body[0], ast.Return) \
+            and fbody[-2].body[0].value is None and not isinstance(fbody[-1], ast.If):
+        flipped = ast.If(test=ast.UnaryOp(op=ast.Not(), operand=fbody[-2].test), body=[fbody[-1]], orelse=[])
+        ast.copy_location(flipped, fbody[-2])
+        ast.fix_missing_locations(flipped)
+        fbody = fbody[:-2] + [flipped]
+    for st in fbody:
         if isinstance(st, ast.Expr) and isinstance(st.value, ast.Constant):
             continue
         try:
